@@ -187,7 +187,12 @@ def merge_rules(R, pfx="C07"):
             g_ = cfg_of(tx)
             setl = set()
             for bid in ext:
-                recv = op_local(g_.term(bid)["args"][0])
+                t_u = g_.term(bid)
+                if (t_u.get("ngen") or "").endswith("iterator::Iterator::fold"):
+                    recv = op_local(t_u["args"][1])         # fold(set, |acc, x| { acc.insert(x); acc }): the set is the accumulator and the result
+                    setl.add(t_u["d"][0])
+                else:
+                    recv = op_local(t_u["args"][0])
                 setl |= {recv} | set(ta.ref_of.get(recv, ()))
             # … into an ordered set: the stored bytes must not depend on the order in which this node learnt the transactions (two replicas
             # holding the same set as [t1, t2] and [t2, t1] advertise different content hashes for ever) — the union's receiver is a
